@@ -411,3 +411,5 @@ func (h *H) closeAllObserved(inflight bool) (sx, error) {
 	st.Close()
 	return choice, err
 }
+
+func sleepMicros(n int) { time.Sleep(time.Duration(n) * time.Microsecond) }
